@@ -69,6 +69,7 @@ impl<'a> Gen<'a> {
         match ty {
             Ty::Sc(s) => self.scalar_value(*s, cx),
             Ty::Json => Doc::parse(r#"{"a":[1,-2,1.5,"s",null,true],"b":{}}"#),
+            Ty::Phantom => Doc::s("marker"),
             Ty::P(t) | Ty::Bx(t) => self.valid(t, cx, depth),
             Ty::Opt(t) => {
                 if cx.sparse || depth > self.max_item_depth {
@@ -148,7 +149,7 @@ impl<'a> Gen<'a> {
 
     fn max_variants(&self, ty: &Ty, seen: &mut Vec<usize>) -> usize {
         match ty {
-            Ty::Sc(_) | Ty::Json | Ty::Cs(_) => 1,
+            Ty::Sc(_) | Ty::Json | Ty::Phantom | Ty::Cs(_) => 1,
             Ty::P(t) | Ty::Opt(t) | Ty::Bx(t) | Ty::Vec(t) | Ty::HSet(t) | Ty::BSet(t) | Ty::Arr(t, _) => {
                 self.max_variants(t, seen)
             }
@@ -252,6 +253,9 @@ impl<'a> Gen<'a> {
             if let Some(r) = &f.rename {
                 add(r.clone());
             }
+            if let Some(r) = &f.serde_rename {
+                add(r.clone());
+            }
             // near-misses of the effective key
             add(format!("{eff}x"));
             add(format!("_{eff}"));
@@ -269,6 +273,8 @@ impl<'a> Gen<'a> {
             add(t.to_string());
         }
         add("zz".to_string());
+        // the empty member name: sorts first in a sorted source, sits anywhere in an ordered one
+        add(String::new());
         let _ = apply_rename_all;
         u
     }
@@ -357,6 +363,8 @@ impl<'a> Gen<'a> {
                 out.push(Edit { loc: loc.clone(), op: Op::Replace(Doc::Null) });
                 out.push(Edit { loc: loc.clone(), op: Op::Replace(Doc::Seq(vec![Doc::Obj(vec![])])) });
             }
+            // anything at all is accepted
+            Ty::Phantom => Self::replace_with_other_kinds(doc, loc, out),
             Ty::P(t) | Ty::Bx(t) => self.edits_at(t, doc, loc, rich, depth, out),
             Ty::Opt(t) => {
                 if *doc == Doc::Null {
@@ -805,7 +813,7 @@ impl<'a> Gen<'a> {
             }
         };
         match ty {
-            Ty::Sc(_) | Ty::Json | Ty::Cs(_) => {}
+            Ty::Sc(_) | Ty::Json | Ty::Phantom | Ty::Cs(_) => {}
             Ty::P(t) | Ty::Opt(t) | Ty::Bx(t) | Ty::Vec(t) | Ty::HSet(t) | Ty::BSet(t) | Ty::Arr(t, _) => {
                 self.collect_alphabet(t, keys, strings, seen)
             }
